@@ -198,6 +198,7 @@ def kw_wconprod(draw, m):
     if m.wells[w]["kind"] != "P":
         m.wells[w]["kind"] = "P"
         m.wells[w]["converted"] = True
+    m.wells[w]["ctl"] = "prod"
     status = draw(st.sampled_from(["OPEN", "OPEN", "SHUT", "STOP"]))
     mode = draw(st.sampled_from(["ORAT", "WRAT", "GRAT", "LRAT", "RESV", "BHP"]))
     vals = [draw(st.one_of(st.just("1*"), rate.map(fnum))) for _ in range(5)]
@@ -222,6 +223,7 @@ def kw_wconinje(draw, m):
         if m.wells[w]["injtype"] not in ("WATER", "GAS"):
             m.wells[w]["injtype"] = "WATER"
     typ = m.wells[w]["injtype"]
+    m.wells[w]["ctl"] = "inje"
     status = draw(st.sampled_from(["OPEN", "OPEN", "SHUT", "STOP"]))
     mode = draw(st.sampled_from(["RATE", "RESV", "BHP"]))
     r = fnum(draw(rate))
@@ -550,7 +552,21 @@ def kw_msw(draw, m):
 def kw_wsegvalv(draw, m):
     w = draw(st.sampled_from(sorted(w for w, W in m.wells.items() if W.get("msw") and W.get("pdrop") != "H--")))
     seg = draw(st.integers(2, m.wells[w]["nseg"]))
-    return "WSEGVALV\n '%s' %d %s %s /\n/\n" % (w, seg, fnum(draw(st.sampled_from([0.7, 0.85, 1.0]))), fnum(draw(st.sampled_from([0.002, 0.01]))))
+    form = draw(st.sampled_from(["valv", "valv", "valv+", "sicd", "sicd-", "sicd+", "aicd"]))
+    if form == "valv":
+        return "WSEGVALV\n '%s' %d %s %s /\n/\n" % (w, seg, fnum(draw(st.sampled_from([0.7, 0.85, 1.0]))), fnum(draw(st.sampled_from([0.002, 0.01]))))
+    if form == "valv+":
+        return "WSEGVALV\n '%s' %d 0.7 0.002 0.1 1e-4 0.008 0.003 '%s' 0.004 /\n/\n" % (w, seg, draw(st.sampled_from(["OPEN", "SHUT"])))
+    if form == "sicd":
+        return "WSEGSICD\n '%s' %d %d 0.001 %s /\n/\n" % (w, seg, seg, draw(st.sampled_from(["1*", "5.0", "12"])))
+    if form == "sicd-":
+        # negative device length + default scaling method: |length| is an absolute scaling length
+        return "WSEGSICD\n '%s' %d %d 0.001 %s /\n/\n" % (w, seg, seg, draw(st.sampled_from(["-2.5", "-10"])))
+    if form == "sicd+":
+        return "WSEGSICD\n '%s' %d %d 0.001 %s 1000.25 1.45 0.6 0.05 5 %s 1* '%s' /\n/\n" % (
+            w, seg, seg, draw(st.sampled_from(["5.0", "-2.5"])), draw(st.sampled_from(["-1", "0", "1", "2"])), draw(st.sampled_from(["OPEN", "SHUT"])))
+    return "WSEGAICD\n '%s' %d %d 0.002 %s 1000.25 1.45 0.6 0.05 5 %s 1* 1.1 0.9 'OPEN' 1.0 1.0 1.0 1.1 1.2 1.3 /\n/\n" % (
+        w, seg, seg, draw(st.sampled_from(["-1.5", "4.0", "1*"])), draw(st.sampled_from(["-1", "1", "0"])))
 
 
 @st.composite
@@ -593,7 +609,57 @@ def kw_wconinjh(draw, m):
                                                        fnum(draw(rate)), fnum(draw(press) + 100))
 
 
+@st.composite
+def kw_wellextra(draw, m):
+    """well keywords that most decks do not use (each one a whole keyword with one record)"""
+    w = draw(st.sampled_from(_wells(m)))
+    W = m.wells[w]
+    opts = ["WPAVE\n %s %s '%s' '%s' /\n" % (fnum(draw(st.sampled_from([0.5, 0.25, 1]))), fnum(draw(st.sampled_from([0.5, -1, 1]))),
+                                            draw(st.sampled_from(["WELL", "RES"])), draw(st.sampled_from(["ALL", "OPEN"]))),
+            "WPAVEDEP\n '%s' %s /\n/\n" % (w, draw(st.sampled_from(["2031.5", "1*", "2004.25"]))),
+            "WDFAC\n '%s' %s /\n/\n" % (w, draw(st.sampled_from(["1e-5", "0", "2.5e-4"]))),
+            "WDFACCOR\n '%s' 1.2e-3 -1.045 0.0 /\n/\n" % w,
+            "WVFPEXP\n '%s' '%s' '%s' '%s' /\n/\n" % (w, draw(st.sampled_from(["EXP", "IMP"])), draw(st.sampled_from(["NO", "YES"])),
+                                                    draw(st.sampled_from(["NO", "YES1", "YES2"]))),
+            "WVFPDP\n '%s' %s %s /\n/\n" % (w, draw(st.sampled_from(["2.5", "0", "-1.5"])), draw(st.sampled_from(["0.9", "1*"]))),
+            "COMPLUMP\n '%s' %d %d %d %d %d /\n/\n" % ((w,) + tuple(W["conns"][0]) + (W["conns"][0][2], draw(st.integers(1, 3)))),
+            "WELSPECS\n '%s' '%s' %d %d %s '%s' %s /\n/\n" % (w, W["group"], W["i"], W["j"], draw(st.sampled_from(["2007.5", "1*"])),
+                                                            "OIL" if W["kind"] == "P" else W["injtype"],
+                                                            draw(st.sampled_from(["0.3 'GPP'", "1* 'STD' 'STOP'", "0.0 'STD' 'SHUT' 'NO' 1 'AVG'"]))),
+            "WORKLIM\n %d /\n" % draw(st.sampled_from([10, 30])), "WLIMTOL\n 0.1 /\n", "WELSOMIN\n 0.2 /\n",
+            "WDRILTIM\n '%s' %d /\n/\n" % (w, draw(st.sampled_from([5, 10]))),
+            "WSEGITER\n 40 20 0.3 2.0 /\n"]
+    if W["kind"] == "P":
+        if W.get("ctl") == "prod":      # (a multiplier needs the target it multiplies)
+            opts += ["WTMULT\n '%s' 'BHP' %s /\n/\n" % (w, fnum(draw(st.sampled_from([0.8, 1.25]))))]
+        opts += [
+                 "WTADD\n '%s' 'ORAT' %s 1 /\n/\n" % (w, fnum(draw(st.sampled_from([50, -5])))),
+                 "WCUTBACK\n '%s' 0.5 1* 1* 1* 0.8 'OIL' /\n/\n" % w,
+                 "WECON\n '%s' 10 20 0.9 100 50 '%s' '%s' 1* 'RATE' 0.95 'NONE' /\n/\n" % (w, draw(st.sampled_from(["CON", "WELL", "NONE"])),
+                                                                                   draw(st.sampled_from(["YES", "NO"])))]
+    else:
+        opts += ["WINJTEMP\n '%s' 1* %s /\n/\n" % (w, draw(st.sampled_from(["50", "35.5"]))), "WTEMP\n '%s' 40 /\n/\n" % w,
+                 ] + (["WINJMULT\n '%s' 5000 1.5 '%s' /\n/\n" % (w, draw(st.sampled_from(["WREV", "CREV", "CIRR"])))] if W.get("ctl") == "inje" else [])
+    return draw(st.sampled_from(opts))
+
+
+@st.composite
+def kw_groupextra(draw, m):
+    g = draw(st.sampled_from(sorted(x for x in m.groups if x != "FIELD")))
+    return draw(st.sampled_from([
+        "GSATPROD\n '%s' 100 50 1000 /\n/\n" % g,
+        "GCONPROD\n '%s' 'ORAT' 1000 2000 3000 4000 'RATE' '%s' 0.5 'OIL' 'WELL' 'CON' 'RATE' 500 /\n/\n" % (g, draw(st.sampled_from(["YES", "NO"]))),
+        "GCONINJE\n '%s' 'WATER' 'VREP' 1000 1* 0.8 0.9 '%s' 1.5 'RATE' '%s' /\n/\n" % (g, draw(st.sampled_from(["YES", "NO"])), g),
+        "GPMAINT\n '%s' 'WINJ' 1 1* 250 0.01 100 /\n/\n" % g,
+        "GDRILPOT\n '%s' 'QO' 100 /\n/\n" % g,
+        "PRORDER\n 'DRILL' 'THP' /\n /\n", "NETBALAN\n 1 0.1 10 /\n",
+        "LIFTOPT\n 12500 5e-3 0.0 'YES' /\nGLIFTOPT\n '%s' 1* 10000 /\n/\n" % g,
+    ]))
+
+
 EXTRA_GENERATORS = {
+    "wellextra": (kw_wellextra, lambda m: bool(_wells(m))),
+    "groupextra": (kw_groupextra, lambda m: len(m.groups) > 1),
     "msw": (kw_msw, lambda m: any(not W.get("msw") for w, W in m.wells.items() if W["conns"]) and
             sum(1 for W in m.wells.values() if W.get("msw")) < 2),
     "wsegvalv": (kw_wsegvalv, lambda m: any(W.get("msw") and W.get("pdrop") != "H--" for W in m.wells.values())),
